@@ -36,19 +36,23 @@ def program(draw, tier="quick"):
     d = draw(st.sampled_from([2, 3, 3]))
     n_nodes = draw(st.integers(1, 4))
     use_free = draw(st.sampled_from([False, False, True]))
+    # one case in five: two plain bound tensors joined by edges in both directions (trace-like contractions)
+    pair = draw(st.integers(0, 4)) == 0
+    if pair:
+        n_nodes, use_free = 2, False
     free_sizes = [draw(st.sampled_from([1, 2, 3])) for _ in range(2)]
     nodes = []
     narrow_case = draw(st.integers(0, 3)) == 0  # every plain node of the diagram has a narrow integer type
     for _ in range(n_nodes):
-        special = draw(st.sampled_from([None] * 6 + ["eps", "delta"]))
+        special = draw(st.sampled_from([None] * 6 + ["eps", "delta"])) if not pair else None
         if special == "eps":
             nodes.append({"eps": d, "cov": draw(st.booleans())})
             continue
         if special == "delta":
             nodes.append({"delta": [d, draw(st.sampled_from([1, 1, 2]))]})
             continue
-        rank = draw(st.integers(1, 3))
-        sizes = [d if draw(st.integers(0, 11)) else (5 - d) for _ in range(rank)]
+        rank = draw(st.integers(1, 3)) if not pair else draw(st.integers(2, 3))
+        sizes = [d if (pair or draw(st.integers(0, 11))) else (5 - d) for _ in range(rank)]
         cov = [i for i in range(rank) if draw(st.booleans())]
         nfree = draw(st.integers(0, 2)) if use_free else 0
         fs = free_sizes[2 - nfree :] if nfree else []
@@ -68,17 +72,25 @@ def program(draw, tier="quick"):
         want_valid = draw(st.integers(0, 6)) != 0
         srcs = [i for i in range(n_nodes) if unused[i][0]]
         tgts = [i for i in range(n_nodes) if unused[i][1]]
-        if want_valid and srcs and tgts:
+        if pair and len(edges) < 2 and unused[len(edges)][0] and unused[1 - len(edges)][1]:
+            s, t = len(edges), 1 - len(edges)  # first 0 -> 1, then 1 -> 0
+            unused[s][0].pop(0)
+            unused[t][1].pop(0)
+        elif want_valid and srcs and tgts:
             s = draw(st.sampled_from(srcs))
             t = draw(st.sampled_from(tgts))
             unused[s][0].pop(0)
             unused[t][1].pop(0)
+        elif want_valid:
+            break  # no unused index pair is left: a further edge could only be an invalid one
         else:
             s = draw(st.integers(0, n_nodes - 1))
             t = draw(st.integers(0, n_nodes - 1))
         edges.append([s, t])
     form = draw(st.sampled_from(["ctor", "ctor", "add_edge", "add_node"]))
-    return {"nodes": nodes, "edges": edges, "form": form}
+    if not edges:
+        form = "add_node"  # a diagram without edges can only be built node by node
+    return {"nodes": nodes, "edges": edges, "form": form, "pair": pair}
 
 
 def node_meta(n):
@@ -327,6 +339,8 @@ def prog_labels(c):
         out.append("eps/delta-node")
     if any(n.get("dt") and n.get("mul", 1) >= 300 for n in c["nodes"]):
         out.append("narrow-integer-type-large-entries")
+    if len(c["nodes"]) == 2 and [0, 1] in [list(e) for e in c["edges"]] and [1, 0] in [list(e) for e in c["edges"]]:
+        out.append("two-nodes-edges-in-both-directions")
     return out
 
 
@@ -543,7 +557,7 @@ def run_epseps(case):
 LAWS = [
     Law("diagram_program", lambda tier: program(tier), run_program, prog_nontrivial, prog_labels, {"quick": 3000, "thorough": 60000},
         "generated diagram programs vs reference bookkeeping model", shard=4000,
-        mandatory=("self-loop", "repeated-edge", "collection-axes", "predicted-error", "valid", "narrow-integer-type-large-entries")),
+        mandatory=("self-loop", "repeated-edge", "collection-axes", "predicted-error", "valid", "narrow-integer-type-large-entries", "two-nodes-edges-in-both-directions")),
     Law("surface_forms", lambda tier: surface(tier), run_surface, lambda c: True, lambda c: [c["form"]], {"quick": 800, "thorough": 10000},
         "a*b, b.__rmul__(a), a**k, a.tensor_product(b), a*ndarray as their defining programs", shard=4000),
     Law("epsilon_table", None, run_eps, enumerate=eps_cases, exhaustive=lambda tier: {"name": "all entries of LeviCivitaTensor(n), n=1..%d, both variances" % (7 if tier == "thorough" else 6), "size": sum(n**n for n in range(1, 8 if tier == "thorough" else 7)) * 2, "exhaustive": True},
